@@ -13,7 +13,7 @@ for d in "$out"/m*/; do
   # any helper files the demo needs
   for f in "$d"/*.py "$d"/*.bin "$d"/*.json; do [ -f "$f" ] && cp -n "$f" $dst/ 2>/dev/null; done
   echo "### imported $dst: $(head -1 $dst/notes.txt | cut -c1-150)"
-  tools/try_seed.sh $dst $prop 2>&1 | cut -c1-300 | tail -5
+  /venv/bin/python tools/check_patch.py $dst/patch.diff $prop 2>&1 | cut -c1-300 | tail -4
 done
 [ -n "$wt" ] && git -C /repo worktree remove --force "$wt"
 rm -rf "$out"
